@@ -57,6 +57,8 @@ def lpaths_ops(case):
     except gfapy.Error:
         return [], []
     # the model is given the lines in the library's own order (segments in registry order)
+    if any(l.virtual for l in g.lines):
+        return [], []     # a placeholder line cannot be handed to the model as a line (it is written with a commentary tag)
     ops = [op("g.new", v)] + [op("g.add", str(l)) for l in g.lines if l.record_type in "SLCPEGFOU"]
     exp = ["ok"] * len(ops)
     r = lib.outcome(g.linear_paths)
@@ -119,6 +121,8 @@ def merge_ops(case):
         r = lib.outcome(g.linear_paths)
         if r[0] != "ok" or not r[1]:
             return [], []
+    if any(l.virtual for l in g.lines):
+        return [], []     # a placeholder line cannot be handed to the model as a line (it is written with a commentary tag)
     ops = [op("g.new", v)] + [op("g.add", str(l)) for l in g.lines if l.record_type in "SLCPEGFOU"]
     exp = ["ok"] * len(ops)
     if case.get("all"):
